@@ -345,6 +345,9 @@ var implied = map[string][]string{
 func chainFeatures(t *TSpec, seen map[string]bool, out map[string]bool) {
 	for cur := t; cur != nil; cur = cur.E {
 		switch {
+		case cur.K == "slice" && cur.E.K == "uint8":
+			out["bytes"] = true // []uint8 is []byte
+			return
 		case primKinds[cur.K] != nil:
 			out["prim:"+cur.K] = true
 		case cur.K == "struct":
@@ -352,12 +355,18 @@ func chainFeatures(t *TSpec, seen map[string]bool, out map[string]bool) {
 				out["empty-struct"] = true
 			} else {
 				out["struct"] = true
-				c := canon(cur)
-				if seen[c] {
-					out["reuse"] = true
-				}
-				seen[c] = true
 			}
+			c := canon(cur)
+			if seen[c] {
+				out["reuse"] = true
+			}
+			seen[c] = true
+		case cur.K == "time" || cur.K == "iface":
+			out[cur.K] = true
+			if seen[cur.K] {
+				out["reuse"] = true // the nested-ref generator treats a second occurrence like a reused struct
+			}
+			seen[cur.K] = true
 		case strings.HasPrefix(cur.K, "corpus:"):
 			out[cur.K] = true
 			if seen[cur.K] {
@@ -654,7 +663,65 @@ func reductions(root *TSpec) []TSpec {
 			})
 		}
 	}
+	// whole-tree replacements of a compiled type by simpler stand-ins (keeps "used twice" intact)
+	kinds := map[string]bool{}
+	var findCorpus func(t *TSpec)
+	findCorpus = func(t *TSpec) {
+		if strings.HasPrefix(t.K, "corpus:") {
+			kinds[t.K] = true
+		}
+		if t.E != nil {
+			findCorpus(t.E)
+		}
+		for i := range t.F {
+			if t.F[i].Emb == "" {
+				findCorpus(&t.F[i].T)
+			}
+		}
+	}
+	findCorpus(root)
+	standIns := []TSpec{
+		{K: "struct", F: []FSpec{{Name: "A", Mode: "tagged", JName: "a", T: TSpec{K: "int"}}}},
+		{K: "corpus:Leaf"}, {K: "corpus:SelfPtrOmit"},
+	}
+	for _, k := range sortedKeys(kinds) {
+		for _, si := range standIns {
+			if standInRank(si.K) >= standInRank(k) {
+				continue // only ever move towards simpler stand-ins (no cycles)
+			}
+			c := cloneT(*root)
+			var repl func(t *TSpec)
+			repl = func(t *TSpec) {
+				if t.K == k {
+					*t = cloneT(si)
+					return
+				}
+				if t.E != nil {
+					repl(t.E)
+				}
+				for i := range t.F {
+					if t.F[i].Emb == "" {
+						repl(&t.F[i].T)
+					}
+				}
+			}
+			repl(&c)
+			out = append(out, c)
+		}
+	}
 	return out
+}
+
+func standInRank(k string) int {
+	switch k {
+	case "struct":
+		return 0
+	case "corpus:Leaf":
+		return 1
+	case "corpus:SelfPtrOmit":
+		return 2
+	}
+	return 3
 }
 
 func sortedKeys(m map[string]bool) []string {
